@@ -1,32 +1,397 @@
-/* C03 harness: bash-f, bash hash, bash programmable automaton, brng, botp on the real library.
-   One op per line; see props/C03.py for the op grammar. */
+/* C03 harness: bash-f, bash hash, bash programmable automaton, brng CTR/HMAC, botp on the REAL library.
+   One op per line; grammar in props/C03.py (same lines go to the Lean driver drv_c03).
+   bash_prg.c and brng.c are #included to reach bash_prg_st (state dump) and the static brngBlockInc;
+   bashF itself always comes from the library build (so the bash32 / SIMD configurations are exercised). */
 #include <bee2/core/mem.h>
+#include <bee2/core/str.h>
 #include <bee2/crypto/bash.h>
 #include <bee2/crypto/belt.h>
 #include <bee2/crypto/brng.h>
 #include <bee2/crypto/botp.h>
+#include "crypto/bash/bash_prg.c"
+#include "crypto/brng.c"
+#include "crypto/botp.c"
 static void handle(int argc, char** argv);
 #include "common.h"
+#include "c03_belt.h"
+
+#define BAD() do { printf("bad-op"); return; } while (0)
+
+static int hex_ok(const char* s)
+{
+	size_t n;
+	if (strcmp(s, "-") == 0) return 1;
+	n = strlen(s);
+	if (n == 0 || n % 2) return 0;
+	for (; *s; ++s) if (hv_(*s) < 0) return 0;
+	return 1;
+}
+
+static int dec_ok(const char* s)
+{
+	if (!*s || strlen(s) > 19) return 0;
+	for (; *s; ++s) if (*s < '0' || *s > '9') return 0;
+	return 1;
+}
 
 static void op_bashf(int argc, char** argv)
 {
 	size_t n;
 	octet* b;
-	if (argc != 2) { printf("bad-op"); return; }
+	void* stack;
+	if (argc != 2 || !hex_ok(argv[1])) BAD();
 	b = hex_arg(argv[1], &n);
-	if (n != 192) { printf("bad-op"); return; }
-	{
-		void* stack = malloc(bashF_deep() + 1);
-		bashF(b, stack);
-		free(stack);
-	}
+	if (n != 192) BAD();
+	stack = malloc(bashF_deep() + 1);
+	bashF(b, stack);
+	free(stack);
 	put_hex(b, 192);
 	hex_free(b, n);
+}
+
+static void op_hash(int argc, char** argv)
+{
+	size_t l, n;
+	int i;
+	void* st;
+	octet hash[64];
+	if (argc < 2 || !dec_ok(argv[1])) BAD();
+	l = (size_t)u_arg(argv[1]);
+	if (l == 0 || l % 16 || l > 256) BAD();
+	for (i = 2; i < argc; ++i) if (!hex_ok(argv[i])) BAD();
+	st = malloc(bashHash_keep());
+	bashHashStart(st, l);
+	for (i = 2; i < argc; ++i)
+	{
+		octet* c = hex_arg(argv[i], &n);
+		bashHashStepH(c, n, st);
+		hex_free(c, n);
+		bashHashStepG(hash, l / 4, st);
+		if (i > 2) fputc(' ', stdout);
+		put_hex(hash, l / 4);
+	}
+	free(st);
+}
+
+static int len_ok(size_t a, size_t k, size_t l)
+{
+	return a % 4 == 0 && a <= 60 && k % 4 == 0 && k <= 60 && (k == 0 || k >= l / 8);
+}
+
+/* automaton: all commands are validated first (so that nothing is printed for a bad line) */
+static void op_prg(int argc, char** argv)
+{
+	size_t l, d, an, kn, n;
+	octet *a, *k;
+	bash_prg_st* st;
+	int i, first = 1;
+	if (argc < 5 || !dec_ok(argv[1]) || !dec_ok(argv[2]) || !hex_ok(argv[3]) || !hex_ok(argv[4])) BAD();
+	l = (size_t)u_arg(argv[1]), d = (size_t)u_arg(argv[2]);
+	if (!(l == 128 || l == 192 || l == 256) || !(d == 1 || d == 2)) BAD();
+	/* syntactic validation of the commands */
+	for (i = 5; i < argc; ++i)
+	{
+		char* t = argv[i];
+		char c = t[0];
+		if (c == 'T') { if (t[1]) BAD(); continue; }
+		if (t[1] != ':') BAD();
+		if (c == 'R')
+		{
+			char* p = strchr(t + 2, ':');
+			if (!p || strchr(p + 1, ':')) BAD();
+			*p = 0;
+			if (!hex_ok(t + 2) || !hex_ok(p + 1)) BAD();
+			*p = ':';
+		}
+		else if (c == 'S' || c == 's') { if (!dec_ok(t + 2) || u_arg(t + 2) > 100000) BAD(); }
+		else if (strchr("AaEeDd", c)) { if (strchr(t + 2, ':') || !hex_ok(t + 2)) BAD(); }
+		else BAD();
+	}
+	a = hex_arg(argv[3], &an), k = hex_arg(argv[4], &kn);
+	if (!len_ok(an, kn, l)) BAD();
+	st = (bash_prg_st*)malloc(bashPrg_keep());
+	bashPrgStart(st, l, d, a, an, k, kn);
+	hex_free(a, an), hex_free(k, kn);
+	/* dry run for semantic validation is not possible without executing: execute, buffer output */
+	{
+		static char out[1 << 22];
+		size_t o = 0;
+		int bad = 0;
+		for (i = 5; i < argc && !bad; ++i)
+		{
+			char* t = argv[i];
+			char c = t[0];
+			octet* x = 0;
+			size_t j;
+			if (c == 'T') { bashPrgRatchet(st); continue; }
+			if (c == 'R')
+			{
+				char* p = strchr(t + 2, ':');
+				octet *ra, *rk;
+				size_t ran, rkn;
+				*p = 0;
+				ra = hex_arg(t + 2, &ran), rk = hex_arg(p + 1, &rkn);
+				if (!len_ok(ran, rkn, st->l)) bad = 1;
+				else bashPrgRestart(ra, ran, rk, rkn, st);
+				hex_free(ra, ran), hex_free(rk, rkn);
+				continue;
+			}
+			if (c == 'S' || c == 's')
+			{
+				n = (size_t)u_arg(t + 2);
+				x = (octet*)malloc(n ? n : 1);
+				memset(x, 0xA5, n);
+				if (c == 'S') bashPrgSqueeze(x, n, st); else bashPrgSqueezeStep(x, n, st);
+			}
+			else
+			{
+				octet* h = hex_arg(t + 2, &n);
+				x = (octet*)malloc(n ? n : 1);
+				memcpy(x, h, n);
+				hex_free(h, n);
+				if (c == 'A') bashPrgAbsorb(x, n, st);
+				else if (c == 'a') bashPrgAbsorbStep(x, n, st);
+				else if (c == 'E') { if (!bashPrgIsKeymode(st)) bad = 1; else bashPrgEncr(x, n, st); }
+				else if (c == 'e') bashPrgEncrStep(x, n, st);
+				else if (c == 'D') { if (!bashPrgIsKeymode(st)) bad = 1; else bashPrgDecr(x, n, st); }
+				else bashPrgDecrStep(x, n, st);
+			}
+			if (!bad && !strchr("Aa", c))
+			{
+				static const char dg[] = "0123456789abcdef";
+				if (!first) out[o++] = ' ';
+				first = 0;
+				if (n == 0) out[o++] = '-';
+				for (j = 0; j < n; ++j) out[o++] = dg[x[j] >> 4], out[o++] = dg[x[j] & 15];
+			}
+			free(x);
+		}
+		if (bad) { free(st); BAD(); }
+		out[o] = 0;
+		fputs(out, stdout);
+		if (!first) fputc(' ', stdout);
+		printf("%u %u ", (unsigned)st->pos, (unsigned)st->buf_len);
+		put_hex(st->s, 192);
+	}
+	free(st);
+}
+
+static void op_ctrinc(int argc, char** argv)
+{
+	size_t n;
+	octet* m;
+	if (argc != 2 || !hex_ok(argv[1])) BAD();
+	m = hex_arg(argv[1], &n);
+	if (n != 64) BAD();
+	brngBlockInc(m);
+	put_hex(m, 64);
+	hex_free(m, n);
+}
+
+static void op_ctr(int argc, char** argv)
+{
+	size_t kn, ivn, n;
+	octet *k, *iv, out[32];
+	void* st;
+	int i;
+	if (argc < 3) BAD();
+	for (i = 1; i < argc; ++i) if (!hex_ok(argv[i])) BAD();
+	k = hex_arg(argv[1], &kn), iv = hex_arg(argv[2], &ivn);
+	if (kn != 32 || ivn != 32) BAD();
+	st = malloc(brngCTR_keep());
+	brngCTRStart(st, k, iv);
+	hex_free(k, kn), hex_free(iv, ivn);
+	for (i = 3; i < argc; ++i)
+	{
+		octet* b = hex_arg(argv[i], &n);
+		brngCTRStepR(b, n, st);
+		put_hex(b, n);
+		fputc(' ', stdout);
+		hex_free(b, n);
+	}
+	brngCTRStepG(out, st);
+	put_hex(out, 32);
+	free(st);
+}
+
+static void op_hmacgen(int argc, char** argv)
+{
+	size_t kn, ivn, n;
+	octet *k, *iv;
+	void* st;
+	int i;
+	if (argc < 3 || !hex_ok(argv[1]) || !hex_ok(argv[2])) BAD();
+	for (i = 3; i < argc; ++i) if (!dec_ok(argv[i]) || u_arg(argv[i]) > 100000) BAD();
+	k = hex_arg(argv[1], &kn), iv = hex_arg(argv[2], &ivn);
+	st = malloc(brngHMAC_keep());
+	brngHMACStart(st, k, kn, iv, ivn);
+	hex_free(k, kn);	/* the key may go; the iv must stay (the state keeps a pointer when iv_len > 64) */
+	for (i = 3; i < argc; ++i)
+	{
+		octet* b;
+		n = (size_t)u_arg(argv[i]);
+		b = (octet*)malloc(n ? n : 1);
+		memset(b, 0x5A, n);
+		brngHMACStepR(b, n, st);
+		if (i > 3) fputc(' ', stdout);
+		put_hex(b, n);
+		free(b);
+	}
+	hex_free(iv, ivn);
+	free(st);
+}
+
+static void op_hotp(int argc, char** argv)
+{
+	size_t dg, kn, cn, n, i;
+	octet *k, *c, ctr[8];
+	char* otp;
+	void* st;
+	if (argc != 5 || !dec_ok(argv[1]) || !hex_ok(argv[2]) || !hex_ok(argv[3]) || !dec_ok(argv[4])) BAD();
+	dg = (size_t)u_arg(argv[1]), n = (size_t)u_arg(argv[4]);
+	k = hex_arg(argv[2], &kn), c = hex_arg(argv[3], &cn);
+	if (dg < 4 || dg > 9 || cn != 8 || n > 1000) BAD();
+	st = malloc(botpHOTP_keep());
+	otp = (char*)malloc(dg + 1);
+	botpHOTPStart(st, dg, k, kn);
+	botpHOTPStepS(st, c);
+	hex_free(k, kn), hex_free(c, cn);
+	for (i = 0; i < n; ++i)
+	{
+		botpHOTPStepR(otp, st);
+		printf("%s ", otp);
+	}
+	botpHOTPStepG(ctr, st);
+	put_hex(ctr, 8);
+	free(otp), free(st);
+}
+
+static void op_hotpv(int argc, char** argv)
+{
+	size_t dg, kn, cn, on;
+	octet *k, *c, *o, ctr[8];
+	char* otp;
+	void* st;
+	bool_t r;
+	if (argc != 5 || !dec_ok(argv[1]) || !hex_ok(argv[2]) || !hex_ok(argv[3]) || !hex_ok(argv[4])) BAD();
+	dg = (size_t)u_arg(argv[1]);
+	k = hex_arg(argv[2], &kn), c = hex_arg(argv[3], &cn), o = hex_arg(argv[4], &on);
+	if (dg < 4 || dg > 9 || cn != 8 || memchr(o, 0, on)) BAD();
+	otp = (char*)malloc(on + 1);
+	memcpy(otp, o, on), otp[on] = 0;
+	st = malloc(botpHOTP_keep());
+	botpHOTPStart(st, dg, k, kn);
+	botpHOTPStepS(st, c);
+	r = botpHOTPStepV(otp, st);
+	botpHOTPStepG(ctr, st);
+	printf("%d ", r ? 1 : 0);
+	put_hex(ctr, 8);
+	hex_free(k, kn), hex_free(c, cn), hex_free(o, on), free(otp), free(st);
+}
+
+static void op_totp(int argc, char** argv)
+{
+	size_t dg, kn;
+	octet* k;
+	char otp[16];
+	void* st;
+	unsigned long long t;
+	if (argc != 4 || !dec_ok(argv[1]) || !hex_ok(argv[2])) BAD();
+	if (!*argv[3] || strlen(argv[3]) > 20 || strspn(argv[3], "0123456789") != strlen(argv[3])) BAD();
+	errno = 0;
+	t = strtoull(argv[3], 0, 10);
+	if (errno) BAD();
+	dg = (size_t)u_arg(argv[1]);
+	if (dg < 4 || dg > 9) BAD();
+	k = hex_arg(argv[2], &kn);
+	st = malloc(botpTOTP_keep());
+	botpTOTPStart(st, dg, k, kn);
+	botpTOTPStepR(otp, (tm_time_t)t, st);
+	printf("%s", otp);
+	hex_free(k, kn), free(st);
+}
+
+static void op_ocra(int argc, char** argv)
+{
+	size_t sun, kn, qn, cn, pn, sn, n, i;
+	octet *su, *k, *q, *c, *p, *s, ctr[8];
+	char *suite, otp[16];
+	botp_ocra_st* st;
+	unsigned long long t;
+	if (argc != 9) BAD();
+	for (i = 1; i <= 6; ++i) if (!hex_ok(argv[i])) BAD();
+	if (!*argv[7] || strlen(argv[7]) > 20 || strspn(argv[7], "0123456789") != strlen(argv[7])) BAD();
+	errno = 0;
+	t = strtoull(argv[7], 0, 10);
+	if (errno || !dec_ok(argv[8])) BAD();
+	n = (size_t)u_arg(argv[8]);
+	su = hex_arg(argv[1], &sun), k = hex_arg(argv[2], &kn), q = hex_arg(argv[3], &qn);
+	c = hex_arg(argv[4], &cn), p = hex_arg(argv[5], &pn), s = hex_arg(argv[6], &sn);
+	if (memchr(su, 0, sun) || n > 1000) BAD();
+	suite = (char*)malloc(sun + 1);
+	memcpy(suite, su, sun), suite[sun] = 0;
+	st = (botp_ocra_st*)malloc(botpOCRA_keep());
+	if (!botpOCRAStart(st, suite, k, kn)) printf("bad-format");
+	else if (qn < 4 || qn > 2 * st->q_max) printf("bad-params");
+	else if ((st->ctr_len && cn != 8) || (st->p_len && pn != st->p_len) || (st->s_len && sn != st->s_len))
+		printf("bad-op");
+	else
+	{
+		botpOCRAStepS(st, c, p, s);
+		for (i = 0; i < n; ++i)
+		{
+			botpOCRAStepR(otp, q, qn, (tm_time_t)t, st);
+			printf("%s ", otp);
+		}
+		botpOCRAStepG(ctr, st);
+		put_hex(ctr, 8);
+	}
+	hex_free(su, sun), hex_free(k, kn), hex_free(q, qn), hex_free(c, cn), hex_free(p, pn), hex_free(s, sn);
+	free(suite), free(st);
+}
+
+static void op_ctrnext(int argc, char** argv)
+{
+	size_t n;
+	octet* c;
+	if (argc != 2 || !hex_ok(argv[1])) BAD();
+	c = hex_arg(argv[1], &n);
+	if (n != 8) BAD();
+	botpCtrNext(c);
+	put_hex(c, 8);
+	hex_free(c, n);
+}
+
+static void op_dt(int argc, char** argv)
+{
+	size_t dg, n;
+	octet* m;
+	char* otp;
+	if (argc != 3 || !dec_ok(argv[1]) || !hex_ok(argv[2])) BAD();
+	dg = (size_t)u_arg(argv[1]);
+	m = hex_arg(argv[2], &n);
+	if (dg < 4 || dg > 9 || n < 20) BAD();
+	otp = (char*)malloc(dg + 1);
+	botpDT(otp, dg, m, n);
+	printf("%s", otp);
+	free(otp), hex_free(m, n);
 }
 
 static void handle(int argc, char** argv)
 {
 	if (argc < 1) { printf("bad-op"); return; }
+	if (handle_belt(argc, argv)) return;
 	if (!strcmp(argv[0], "bashf")) op_bashf(argc, argv);
+	else if (!strcmp(argv[0], "hash")) op_hash(argc, argv);
+	else if (!strcmp(argv[0], "prg")) op_prg(argc, argv);
+	else if (!strcmp(argv[0], "ctrinc")) op_ctrinc(argc, argv);
+	else if (!strcmp(argv[0], "ctr")) op_ctr(argc, argv);
+	else if (!strcmp(argv[0], "hmacgen")) op_hmacgen(argc, argv);
+	else if (!strcmp(argv[0], "hotp")) op_hotp(argc, argv);
+	else if (!strcmp(argv[0], "hotpv")) op_hotpv(argc, argv);
+	else if (!strcmp(argv[0], "totp")) op_totp(argc, argv);
+	else if (!strcmp(argv[0], "ocra")) op_ocra(argc, argv);
+	else if (!strcmp(argv[0], "ctrnext")) op_ctrnext(argc, argv);
+	else if (!strcmp(argv[0], "dt")) op_dt(argc, argv);
 	else printf("bad-op");
 }
